@@ -662,6 +662,71 @@ func c10Chain(c *fw.Ctx, id string, depth int) {
 	})
 }
 
+// c10CancelRace: two simultaneous future-cancel calls on a running future whose context has hundreds of derived
+// contexts (the body started 300 inner futures), with a third thread polling the status: each cancel of a running
+// future returns true, and once future-done? has been seen true on this never-completing future, future-cancelled? is
+// true as well.
+func c10CancelRace(c *fw.Ctx, id string) {
+	c.Case(id, "two simultaneous cancels of a running future with 300 derived contexts", func() {
+		w := c10NewWorld()
+		if o := hx.EvalText(context.Background(), "(def f (future (do (def inner (map (fn (i) (future (sleep 60000))) (range 0 300))) (trace! :start) (sleep 60000))))", w.env); o.Err != nil || o.Panicked {
+			panic(fmt.Sprint(o.Err, o.PanicMsg))
+		}
+		for i := 0; i < 10000 && w.tracer.Len() == 0; i++ {
+			time.Sleep(time.Millisecond)
+		}
+		if w.tracer.Len() == 0 {
+			c.Count("cancel_race_body_not_started", 1)
+			return
+		}
+		start := make(chan struct{})
+		var wg sync.WaitGroup
+		res := make([]c10Op, 2)
+		for i := 0; i < 2; i++ {
+			wg.Add(1)
+			go func(i int) { defer wg.Done(); <-start; res[i] = w.do(i, "cancel", 20*time.Second) }(i)
+		}
+		stop := make(chan struct{})
+		var bad string
+		var pwg sync.WaitGroup
+		pwg.Add(1)
+		go func() {
+			defer pwg.Done()
+			<-start
+			for {
+				select {
+				case <-stop:
+					return
+				default:
+				}
+				d := w.do(2, "done?", 5*time.Second)
+				cn := w.do(2, "cancelled?", 5*time.Second)
+				if d.Val == "true" && cn.Val == "false" && bad == "" {
+					bad = fmt.Sprintf("%s then %s", d.String(), cn.String())
+				}
+			}
+		}()
+		close(start)
+		wg.Wait()
+		close(stop)
+		pwg.Wait()
+		c.Count("cancel_race_scenarios", 1)
+		for i := range res {
+			if res[i].Val != "true" {
+				c.Violate(fw.Violation{Key: "R6:concurrent-cancel-of-running-future-refused", What: fmt.Sprintf("two threads cancelled a running future at the same moment; one was answered %s %s (both must be true: the future was running, and is cancelled from then on)", res[i].Val, res[i].Err)})
+				return
+			}
+		}
+		if bad != "" {
+			c.Violate(fw.Violation{Key: "R6:done-but-not-cancelled-while-running", What: "a future whose body never completes was seen done and, afterwards, not cancelled: " + bad})
+			return
+		}
+		if fin := w.do(3, "cancelled?", 5*time.Second); fin.Val != "true" {
+			c.Violate(fw.Violation{Key: "R6:not-cancelled-after-cancel", What: "future-cancelled? after both cancels returned: " + fin.String()})
+		}
+	})
+}
+
 func runC10(c *fw.Ctx) {
 	h := installHooks(uint64(c.Seed)*7919 + uint64(c.Shard))
 	h.jitter.Store(true)
@@ -672,6 +737,9 @@ func runC10(c *fw.Ctx) {
 	scen := []string{"body.mid", "body.delivered", "inner-future", "body.end", "cancel.mid", "deref.mid", "cancel-running-sleep", "cancel-running-gate"}
 	for i := 0; i < c.PerShard(c.Pick(336, 8000)); i++ {
 		c10Parked(c, fmt.Sprintf("parked-%d", i), scen[(i*c.NShards+c.Shard)%len(scen)])
+	}
+	for i := 0; i < c.PerShard(c.Pick(160, 1600)); i++ {
+		c10CancelRace(c, fmt.Sprintf("cancel-race-%d", i))
 	}
 	h.jitter.Store(false)
 	for i := 0; i < c.PerShard(c.Pick(32, 320)); i++ {
